@@ -166,3 +166,116 @@ def subtd(run, drv):
                 run.oracle_fail("subtd", {"mode": "sub-write", "td": spec2, "idx": idx, "idx_str": G.index_json(idx), "target": target, "value_shape": sh}, "; ".join(probs)[:400], "sub-write:" + G.stage_of(idx))
             else:
                 run.oracle_ok("subtd")
+
+
+# ----------------------------------------------------------------------------- sub-tensordicts of sub-tensordicts (modelled)
+def _dups(shape, idx):
+    try:
+        r = S.prov(shape)[G.index_py(idx)].reshape(-1).tolist()
+    except Exception:
+        return False
+    return len(set(r)) != len(r)
+
+
+def subsub_model(run, drv):
+    """inner = td._get_sub_tensordict(i1)._get_sub_tensordict(i2): `inner.get(key)` and `inner[i3] = scalar / tensor` against
+    Td.subsubGet / Td.subsubSet (the write-back chain of _SubTensorDict._set_at_str), judged on the ROOT; plus the oracle
+    (composition of the three indices on a provenance tensor) where no index repeats an element."""
+    rng = run.rng
+    n = 1500 if run.tier == "quick" else 12000
+    cases = []
+    for _ in range(n):
+        bs = [rng.randint(1, 4) for _ in range(rng.choice([1, 2, 2, 3]))]
+        i1 = G.gen_index(rng, bs, p_bad=0.03, p_overrun=0.03)
+        try:
+            s1 = list(torch.zeros(bs)[G.index_py(i1)].shape)
+        except Exception:
+            s1 = [2]
+        i2 = G.gen_index(rng, s1, p_bad=0.03, p_overrun=0.03)
+        try:
+            s2 = list(torch.zeros(s1)[G.index_py(i2)].shape)
+        except Exception:
+            s2 = [2]
+        i3 = G.gen_index_adv(rng, s2) if rng.random() < 0.15 else G.gen_index(rng, s2, p_bad=0.03, p_overrun=0.03)
+        if any(sum(1 for t in G.items_of(i) if t == G.ELL) > 1 for i in (i1, i2, i3)):
+            continue
+        feats = [[], [2]] if rng.random() < 0.5 else [[]]
+        try:
+            s3 = list(torch.zeros(s2)[G.index_py(i3)].shape)
+        except Exception:
+            s3 = []
+        v = [] if (rng.random() < 0.6 or len(feats) > 1) else (s3 if rng.random() < 0.8 else s3[1:])
+        cases.append((bs, feats, i1, i2, i3, v))
+    lv = lambda feats: "(leaves" + "".join(" " + S.shape_sx("f", f) for f in feats) + ")"
+    a_get = S.ask_chunked(drv, [f"(c03.subsubget {S.shape_sx('bs', bs)} {lv(feats)} {G.index_sx(i1)} {G.index_sx(i2)})" for bs, feats, i1, i2, i3, v in cases])
+    a_set = S.ask_chunked(drv, [f"(c03.subsub {S.shape_sx('bs', bs)} {lv(feats)} {G.index_sx(i1)} {G.index_sx(i2)} {G.index_sx(i3)} {S.shape_sx('v', v)})" for bs, feats, i1, i2, i3, v in cases])
+    for (bs, feats, i1, i2, i3, v), ag, aw in zip(cases, a_get, a_set):
+        spec = {"bs": bs, "names": None, "feats": feats, "nested": []}
+        run.case(("subsub-model", json.dumps(spec), G.index_sx(i1), G.index_sx(i2), G.index_sx(i3), json.dumps(v)))
+        p1, p2, p3 = G.index_py(i1), G.index_py(i2), G.index_py(i3)
+        # ---- read
+        m = parse_sx(ag)
+        if S.outcome(m) == "ok":
+            m = ["ok", m[1], ["leaves"] + [S.fix_model_leaf(l, G.numel(bs + f)) for l, f in zip(m[2][1:], feats)]]
+        td = S.build_td(spec)
+        try:
+            with time_limit(TL):
+                inner = td._get_sub_tensordict(p1)._get_sub_tensordict(p2)
+                impl = ["ok", ["bs"] + list(inner.batch_size),
+                        ["leaves"] + [S.leaf_answer(td.get(f"l{k}"), inner.get(f"l{k}")) for k in range(len(feats))]]
+        except TimeoutError:
+            raise
+        except Exception as e:
+            impl = ["err", err_class(e)]
+        if S.outcome(impl) == "err" and S.outcome(m) == "err":
+            run.corr("subsub_read", None, "err", "err")
+        else:
+            run.corr("subsub_read", {"td": spec, "i1": G.index_json(i1), "i2": G.index_json(i2)}, impl, m)
+        # ---- write, judged on the root
+        mw = parse_sx(aw)
+        td = S.build_td(spec)
+        before = {k: td.get(f"l{k}").clone() for k in range(len(feats))}
+        val = -1 if not v and rng.random() < 0.7 else W.value_tensor(v)
+        try:
+            with time_limit(TL):
+                inner = td._get_sub_tensordict(p1)._get_sub_tensordict(p2)
+                inner[p3] = val
+            implw = ["ok"] + [W.written_map(td.get(f"l{k}")) for k in range(len(feats))]
+        except TimeoutError:
+            raise
+        except Exception as e:
+            implw = ["err", err_class(e)]
+        run.count("subsub.write", S.outcome(implw))
+        dup = _dups(bs, i1) or _dups(torch.zeros(bs)[p1].shape if S.outcome(impl) == "ok" else [1], i2) if S.outcome(impl) == "ok" else False
+        ci, cm = implw, mw
+        if S.outcome(ci) == "ok" and S.outcome(cm) == "ok" and (dup or G.numel(v) > 1):
+            # repeated elements: which copy is written back last / which value element wins is torch's business
+            ci = ["ok"] + [[-1 if x == -1 else 0 for x in leaf] for leaf in ci[1:]]
+            cm = ["ok"] + [[-1 if x == -1 else 0 for x in leaf] for leaf in cm[1:]]
+        if S.outcome(ci) == "err" and S.outcome(cm) == "err":
+            run.corr("subsub_write", None, "err", "err")
+        elif dup and S.outcome(ci) == "ok" and S.outcome(cm) == "ok":
+            run.count("subsub.write", "dup-skipped")      # with a repeated window cell the survivor of the write-back is unspecified
+        else:
+            run.corr("subsub_write", {"td": spec, "i1": G.index_json(i1), "i2": G.index_json(i2), "i3": G.index_json(i3), "value_shape": v}, ci, cm)
+        # oracle (no repeated element anywhere): exactly the elements [i1][i2][i3] of every entry of the root changed
+        if S.outcome(implw) == "ok" and not dup:
+            try:
+                probs = []
+                for k, f in enumerate(feats):
+                    offs = S.prov(bs + f)[S.pad_for_leaf(i1, len(f))][S.pad_for_leaf(i2, len(f))][S.pad_for_leaf(i3, len(f))].reshape(-1)
+                    if len(set(offs.tolist())) != len(offs):
+                        probs = None
+                        break
+                    want = torch.zeros(G.numel(bs + f), dtype=torch.bool)
+                    want[offs] = True
+                    got = (td.get(f"l{k}") != before[k]).reshape(-1)
+                    if not torch.equal(got, want):
+                        probs.append(f"l{k} of the root: changed positions {got.nonzero().reshape(-1).tolist()[:12]} expected {want.nonzero().reshape(-1).tolist()[:12]}")
+                if probs:
+                    run.oracle_fail("subsub-model", {"mode": "sub-of-sub-write", "td": spec, "idx": i3, "idx_str": f"outer={G.index_json(i1)} inner={G.index_json(i2)} write={G.index_json(i3)}"[:300]},
+                                    "; ".join(probs)[:400], "subsub-model:root-content")
+                elif probs is not None:
+                    run.oracle_ok("subsub-model")
+            except Exception:
+                pass
